@@ -45,7 +45,7 @@ def is_full_range(e, size_names=("size",)):
     return (
         e.get("k") == "Range"
         and not e["closed"]
-        and A.lit_value(e["start"]) == 0
+        and (e.get("start") is None or A.lit_value(e["start"]) == 0)  # `..size` is `0..size`
         and A.ident(A.strip(e["end"])) in size_names
     )
 
@@ -121,6 +121,9 @@ def collect_effects(body, env, problems, loop_depth=0):
                 out.append(("other", e))
             else:
                 out.append(("assign", T.norm(dst, env), T.norm(src, env), e))
+        elif ek == "MethodCall" and e["method"] == "fill" and len(e["args"]) == 1 and _whole_slice(e["recv"]) is not None and A.strip(e["recv"]).get("k") == "Index":
+            # `x[..size].fill(c)` is `for i in 0..size { x[i] = c }`
+            out.append(("assign", T.norm(_whole_slice(e["recv"]), env), T.norm(e["args"][0], env), e))
         else:
             out.append(("other", e))
     return out
